@@ -1508,6 +1508,11 @@ def part_cfg(ck, classes):
             ck.violation('C20:cfg:white-space-inconsistent:' + nm, 'the same white space (%s) between tokens is skipped in cfg(%r) but makes '
                          'cfg(%r) malformed (%d layouts evaluated, %d rejected)' % (nm, a, b, pg['evaluated:' + nm], pg['rejected:' + nm]),
                          {'kind': 'cfg-ws', 'evaluated': a, 'rejected': b})
+    for f in GAPS:
+        if f.strip(' '):
+            for w in ('evaluated', 'rejected'):
+                if pg[w + ':' + GAP_NAME[f]]:
+                    classes.add(('cfg-gap', GAP_NAME[f], w))
     ck.require(pg['layouts_other_white_space'] > 20000 and pg['layouts_two_deviations'] > 10000 and pg['layouts_all_gaps_same'] > 1000
                and pg['nontrivial_expressions'] > 500, 'token-gap family degenerate')
     ck.sample({'cfg_gap_layout': gap_layouts(toks_of(D[d1n + 700]), 1, 0)[40][0], 'true_in': bin(ref_mask(D[d1n + 700])).count('1'), 'of': 16})
@@ -1521,6 +1526,10 @@ def part_cfg(ck, classes):
     pl, _ = absorb2(pmap(cfg_literal_worker, [(n, c) for n in range(1, llen + 1) for c in LITCHARS]), 'cfg_literal_values', new_pstats)
     ck.part('cfg_literal_values', max_chars=llen, alphabet=len(LITCHARS))
     ck.require(pl['wf_sep_literal'] > 1000 and pl['wf'] > pl['wf_sep_literal'], 'literal values degenerate')
+    for p_, nm in ((pp, 'pieces'), (pl, 'literals')):
+        for k in ('wf', 'wf_two_readings', 'wf_sep_literal', 'unterminated', 'malformed', 'skipped'):
+            if p_[k]:
+                classes.add(('cfg-text', nm, k))
     if os.environ.get('VERIF_C20_DEBUG'):
         print('cfg character-level keys: %r' % sorted(cnt2.items()), file=sys.stderr)
     return tot
